@@ -346,6 +346,16 @@ theorem fitEpochs_one (K : Kernel X Wt α μ) (cfg : SearchCfg μ θ) (th0 : θ)
   have := epoch_fold_eq_train_fold K cfg th0 vetoF xs 0 {} (List.replicate xs.length 0) (by simp) rfl
   simpa using this
 
+/-- **No training call changes a hyper-parameter** (C07, for the translated `fit` / `partial_fit`): whatever match
+tracking did during any of the searches of any epoch, the calls hand back the `params` they were given. -/
+theorem fit_restores_params (K : Kernel X Wt α μ) (cfg : SearchCfg μ θ) (E : Ext X Wt P C α) (th : P → θ)
+    (is_none : Bool) (reset : X → Wt → Nat → P → C → Bool) (vetoF : X → Nat → Bool) (mt : MT) (eps : α)
+    (hG : GContract K cfg E th is_none reset vetoF mt eps) (self : Self Wt P) (Xs : List X) (epochs : Nat) (v : Bool) :
+    (Art.Gen.BaseART.fit E self Xs is_none reset epochs mt eps v).1.params = self.params ∧
+    (Art.Gen.BaseART.partial_fit E self Xs is_none reset mt eps).1.params = self.params := by
+  rw [fit_spec K cfg E th is_none reset vetoF mt eps hG self, partial_fit_spec K cfg E th is_none reset vetoF mt eps hG self]
+  exact ⟨rfl, rfl⟩
+
 /-- **Batching is irrelevant** (C06, for the translated code): two `partial_fit` calls are one call on the
 concatenated batch. -/
 theorem partial_fit_append (K : Kernel X Wt α μ) (cfg : SearchCfg μ θ) (E : Ext X Wt P C α) (th : P → θ)
